@@ -1,4 +1,4 @@
-(* C08: the hand-written descriptions of the primitives under the translated code were written against exactly
+(* C06: the hand-written descriptions of the primitives under the translated code were written against exactly
    these function bodies of /repo (digests re-derived from the source on every run). *)
 From Coq Require Import String List.
 From MC Require GeneratedStreamKeeper GeneratedWrkchainKeeper GeneratedBeaconKeeper GeneratedEnterpriseKeeper.
@@ -6,7 +6,7 @@ From MC Require Import proofs.PrimitiveBodies.
 Import ListNotations.
 Local Open Scope string_scope.
 
-Theorem C08_wrkchain_primitive_bodies_as_reviewed :
+Theorem C06_wrkchain_primitive_bodies_as_reviewed :
   GeneratedWrkchainKeeper.wrkchain_primitive_bodies =
   [("GetAllWrkChainBlockHashesForGenesisExport", "6cfba5ffedc45709");
    ("GetAllWrkChains", "f9a2908714127224");
@@ -40,9 +40,9 @@ Theorem C08_wrkchain_primitive_bodies_as_reviewed :
    ("SetWrkChainStorageLimit", "7d2f76c138f299c5");
    ("deleteWrkChainHash", "12527d58405e0b82")].
 Proof. exact wrkchain_primitive_bodies_as_reviewed. Qed.
-Print Assumptions C08_wrkchain_primitive_bodies_as_reviewed.
+Print Assumptions C06_wrkchain_primitive_bodies_as_reviewed.
 
-Theorem C08_beacon_primitive_bodies_as_reviewed :
+Theorem C06_beacon_primitive_bodies_as_reviewed :
   GeneratedBeaconKeeper.beacon_primitive_bodies =
   [("GetAllBeaconTimestampsForExport", "297493c808f6f283");
    ("GetAllBeacons", "017c5698a1c02ec9");
@@ -74,4 +74,4 @@ Theorem C08_beacon_primitive_bodies_as_reviewed :
    ("SetParams", "73bc5d17b364b792");
    ("deleteBeaconTimestamp", "21ea434937146020")].
 Proof. exact beacon_primitive_bodies_as_reviewed. Qed.
-Print Assumptions C08_beacon_primitive_bodies_as_reviewed.
+Print Assumptions C06_beacon_primitive_bodies_as_reviewed.
